@@ -134,7 +134,10 @@ def build_scenario(tmpdir, variant):
     def posted(request):
         return Response(b'posted %d' % len(request.get_data()))
     fpath = os.path.join(tmpdir, 'served.txt')
-    routes = [('/resp', resp), ('/stream', stream), ('/ctx', ctx, render_basic), StaticFileRoute('/file', fpath),
+    from clastic.render import JSONRender, JSONPRender, render_json_dev
+    routes = [('/sjson', ctx, JSONRender(streaming=True)), ('/sjsonp', ctx, JSONPRender(streaming=True)),
+              ('/jsond', ctx, render_json_dev),
+              ('/resp', resp), ('/stream', stream), ('/ctx', ctx, render_basic), StaticFileRoute('/file', fpath),
               ('/static', StaticApplication(tmpdir)), ('/branch/', resp), ('/item/<x>/', resp), ('/boom', boom), ('/forbidden', forbidden),
               POST('/post', posted), ('/meta', MetaApplication())]
     mws = {'plain': [], 'gzip': [GzipMiddleware()], 'cache': [HTTPCacheMiddleware()], 'debug': [],
@@ -142,7 +145,7 @@ def build_scenario(tmpdir, variant):
     return Application(routes, middlewares=mws, debug=(variant == 'debug'))
 
 
-PATHS = ['/item/a\x01b', '/item/\x7f/', '/item/tab\there', '/resp', '/stream', '/ctx', '/file', '/static/served.txt', '/static/noext', '/static/missing', '/branch', '/boom',
+PATHS = ['/sjson', '/sjsonp', '/jsond', '/item/a\x01b', '/item/\x7f/', '/item/tab\there', '/resp', '/stream', '/ctx', '/file', '/static/served.txt', '/static/noext', '/static/missing', '/branch', '/boom',
          '/forbidden', '/post', '/meta/', '/meta/json/', '/nothing/here', '/static/../x']
 METHODS = ['GET', 'HEAD', 'POST', 'OPTIONS']
 MTIME = 1500000000
@@ -452,23 +455,36 @@ def run_reroute(acc, i, n, tier):
     targets = {'plain': (target_plain, '201 Created', b'target body'), 'stream': (target_stream, '200 OK', b'chunk0chunk1chunk2'),
                'input': (target_input, '200 OK', None), 'env': (target_env, '299 Custom Status', None)}
     k = 0
+    from werkzeug.wrappers import Request
+
+    class CopyingRequest(Request):
+        # an application-supplied request type that works on a private, normalised copy of the environ
+        def __init__(self, environ, *a, **kw):
+            env = dict(environ)
+            env['HTTP_HOST'] = 'normalised.example'
+            env.pop('HTTP_X_CUSTOM', None)
+            Request.__init__(self, env, *a, **kw)
+
+    class CopyingApp(Application):
+        request_type = CopyingRequest
     for tname, (target, want_status, want_body) in sorted(targets.items()):
         for how in ('endpoint', 'raised', 'raised-in-middleware'):
+          for App in (Application, CopyingApp):
             for method in ('GET', 'POST', 'HEAD'):
                 k += 1
                 if k % n != i:
                     continue
                 if how == 'endpoint':
-                    app = Application([('/go', RerouteWSGI(target))])
+                    app = App([('/go', RerouteWSGI(target))])
                 elif how == 'raised':
                     def ep(target=target):
                         raise RerouteWSGI(target)
-                    app = Application([('/go', ep)])
+                    app = App([('/go', ep)])
                 else:
                     class R(Middleware):
                         def request(self, next, request, target=target):
                             raise RerouteWSGI(target)
-                    app = Application([('/go', lambda: None)], middlewares=[R()])
+                    app = App([('/go', lambda: None)], middlewares=[R()])
                 body = b'payload-bytes' if method == 'POST' else b''
                 env = wsgi.make_environ('/go', method, query='a=1&b=%3F', headers={'X-Custom': 'custom-value'}, body=body)
                 before = dict(env)
@@ -479,10 +495,11 @@ def run_reroute(acc, i, n, tier):
                 acc.validated += 1
                 acc.add('nontrivial')
                 acc.outcome('reroute|%s|%s|%s' % (tname, how, method))
-                case = {'part': 'reroute', 'target': tname, 'how': how, 'method': method}
+                case = {'part': 'reroute', 'target': tname, 'how': how, 'method': method,
+                        'request_type': 'copying' if App is CopyingApp else 'stock'}
 
                 def bad(kind, msg):
-                    acc.violation('C13:reroute-%s:%s:%s' % (kind, tname, how), '%s; %r -> %s %r' % (msg, case, res.status, res.raised), case)
+                    acc.violation('C13:reroute-%s:%s:%s%s' % (kind, tname, how, ':copying-request-type' if App is CopyingApp else ''), '%s; %r -> %s %r' % (msg, case, res.status, res.raised), case)
                 if res.raised is not None:
                     bad('raised', 'application raised %r' % (res.raised,))
                     continue
